@@ -352,6 +352,12 @@ func (a *Analysis) validIndex(v ssa.Value, x ssa.Value, at ssa.Instruction) (boo
 	if a.loopIndexOf(v, x, at) {
 		return true, "D5 loop index below len"
 	}
+	// x = make([]T, len(y)) indexed by the loop index of a loop over y
+	if mk, ok := x.(*ssa.MakeSlice); ok {
+		if y := lenOf(mk.Len); y != nil && a.loopIndexOf(v, y, at) {
+			return true, "D5 loop index below len of the list the slice was sized after"
+		}
+	}
 	if c, ok := constInt(v); ok && c >= 0 {
 		lb, why := a.lengthLowerBound(x, at)
 		if a.Debug {
